@@ -60,8 +60,7 @@ class IOStub:
       assumes=("checkpoint files follow the sopht_<index>.h5 naming convention (precondition)",
                "PyElastica load_state returns the time stored with the body state (assumed; upstream issue cited by the xfail test)"))
 def restart_helper(K, files):
-    if K.mode != "sym":
-        return None
+    native = K.mode != "sym"  # replay: the REAL directory listing of a scratch directory holding these file names
     m = importlib.import_module(MOD)
     K.functions.append(f"{MOD}:restart_simulation")
     names = [f"sopht_{i:04d}.h5" for i in files] + [f"rod_{i:04d}.h5" for i in files] + ["notes.txt", "sopht_0001_eulerian.xmf"]
@@ -79,7 +78,15 @@ def restart_helper(K, files):
                 return rod_t
 
         saved = (m.Path, m.ea)
-        m.Path, m.ea = listing_stub(names), EA
+        m.Path, m.ea = (m.Path if native else listing_stub(names)), EA
+        if native:
+            import os
+            import tempfile
+            cwd0 = os.getcwd()
+            tmpdir = tempfile.mkdtemp(prefix="svx_restart_")
+            for n in names:
+                open(os.path.join(tmpdir, n), "w").close()
+            os.chdir(tmpdir)
         sim_obj = object()
         io, rod_io, f_io = IOStub(t, log, "flow"), IOStub(K.real("rod_file_time"), log, "rod"), IOStub(K.real("forcing_file_time"), log, "forcing")
         try:
@@ -100,3 +107,7 @@ def restart_helper(K, files):
             K.ensures(f"body_state_loaded_from_the_restart_directory[{variant}]", calls == [(sim_obj, "restart_dir", True)])
         finally:
             m.Path, m.ea = saved
+            if native:
+                import shutil
+                os.chdir(cwd0)
+                shutil.rmtree(tmpdir, ignore_errors=True)
